@@ -43,6 +43,18 @@ type Schema struct {
 	Dep      *Schema  // a second .proto file, imported by this one, with its own Go package (dep/v1;depv1);
 	// its types are referenced as "dep:<Message>" / "depenum:<Enum>"; only the importing file is generated
 	GenDep bool // … unless GenDep is set: then ONE request asks the generator for both files (protoc a.proto b.proto)
+	// SamePkg: the imported file belongs to the SAME Go package as the importing one (one package split over two
+	// .proto files, another proto package): its types need no qualifier and no import, and whatever the generator emits
+	// once per file ends up twice in one package
+	SamePkg bool
+}
+
+// DepName is the name of the schema's imported file.
+func (s *Schema) DepName(fileName string) string {
+	if s.SamePkg {
+		return strings.TrimSuffix(fileName, ".proto") + "_part2.proto"
+	}
+	return DepFileName(fileName)
 }
 
 // DepFileName is the name of the imported file of a schema with a Dep.
@@ -96,7 +108,7 @@ func (s *Schema) FileDescriptor(fileName, pkg, goPkg string) *descriptorpb.FileD
 		Options:    &descriptorpb.FileOptions{GoPackage: proto.String(goPkg)},
 	}
 	if s.Dep != nil {
-		fd.Dependency = append(fd.Dependency, DepFileName(fileName))
+		fd.Dependency = append(fd.Dependency, s.DepName(fileName))
 	}
 	if s.Syntax == "proto3" {
 		fd.Syntax = proto.String("proto3")
